@@ -2,6 +2,7 @@ package main
 
 import (
 	"fmt"
+	"strings"
 	"go/ast"
 	"go/constant"
 	"go/types"
@@ -65,14 +66,21 @@ func verifyFunc(w *World, fn *ssa.Function, fc *FuncContract) (fr *FuncResult) {
 	for i, p := range fn.Params {
 		e.assumeParamWF(st, args[i], p.Type(), name, p.Name())
 	}
-	if len(w.contracts.GlobalInvs) > 0 {
+	if len(w.contracts.GlobalInvs) > 0 && !(fc != nil && fc.EstablishesGlobalInvs) {
 		genv := &SpecEnv{vars: map[string]Val{}, st: st}
 		for _, c := range w.contracts.GlobalInvs {
 			if !e.mentionsUsedGlobal(c, fn) {
 				continue
 			}
 			e.assume(e.safeEvalHyp(c, genv))
-			e.assumed = append(e.assumed, "package-level invariant established by the initialiser (assumed): "+c.Text)
+			e.assumed = append(e.assumed, "package-level invariant, proved as post-condition of the package initialiser (init#post@globalinv*) and preserved because no other function writes package-level state (C17 sweep): "+c.Text)
+		}
+	}
+	if fc != nil && fc.EstablishesGlobalInvs {
+		// the initialiser runs once: its guard is false on entry
+		if g, ok := w.pkg.Members["init$guard"].(*ssa.Global); ok {
+			gv := e.load(st, e.globalAddr(g).Loc)
+			e.assume(not(gv.T))
 		}
 	}
 	if fc != nil {
@@ -90,6 +98,23 @@ func verifyFunc(w *World, fn *ssa.Function, fc *FuncContract) (fr *FuncResult) {
 			if o != nil {
 				o.Cover = true
 			}
+		}
+	}
+	if fc != nil && len(fc.NoRead) > 0 {
+		rs := map[string]bool{}
+		top := w.readSet(fn, map[*ssa.Function]bool{}, rs)
+		for _, nr := range fc.NoRead {
+			bad := top
+			for n := range rs {
+				if n == nr || strings.HasPrefix(n, nr+"#") || strings.HasPrefix(n, nr+".") {
+					bad = true
+				}
+			}
+			goal := "true"
+			if bad {
+				goal = "false"
+			}
+			e.oblige("readframe", nr, fn.Pos(), goal, fc.Props, "noread "+nr+" (no load of this field in the function or anything it calls)")
 		}
 	}
 	e.entry = st.clone()
@@ -396,4 +421,47 @@ func (e *Enc) assumeParamWF(st *State, v Val, t types.Type, fn, pname string) {
 		}
 		e.usedTypeInvs["slice parameters of AST nodes hold no nil element"] = true
 	}
+}
+
+// verifyNoGlobalWrites: package-level variables are written by initialisers only.
+// One obligation per function of the package (decided by the store analysis).
+func verifyNoGlobalWrites(w *World, pi *PackageInv) *FuncResult {
+	fr := &FuncResult{Name: "packageinv noglobalwrites"}
+	e := newEnc(w, nil, nil)
+	e.topName = "package"
+	e.declare("next0", "Int")
+	e.curReach = "true"
+	for _, fn := range w.allFuncs {
+		name := w.funcName(fn)
+		if name == "init" || strings.HasPrefix(name, "init#") || strings.HasPrefix(name, "init$") {
+			continue
+		}
+		var bad []string
+		for _, b := range fn.Blocks {
+			for _, ins := range b.Instrs {
+				switch in := ins.(type) {
+				case *ssa.Store:
+					if p, _, ok := addrPath(in.Addr); ok && strings.HasPrefix(p, "Global#") {
+						bad = append(bad, p)
+					}
+				case *ssa.MapUpdate:
+					if u, ok := in.Map.(*ssa.UnOp); ok {
+						if g, ok := u.X.(*ssa.Global); ok {
+							bad = append(bad, "Global#"+g.Name()+" (map update)")
+						}
+					}
+				}
+			}
+		}
+		goal := "true"
+		clause := "no store to a package-level variable"
+		if len(bad) > 0 {
+			goal = "false"
+			clause = "stores to " + strings.Join(bad, ", ")
+		}
+		o := &Obligation{Name: name + "#frame@package-level-state", Kind: "frame", Func: name, Props: pi.Props, At: len(e.lines), Reach: "true", Goal: goal, Clause: clause}
+		e.obls = append(e.obls, o)
+	}
+	fr.Enc, fr.Obls, fr.Lines = e, e.obls, len(e.lines)
+	return fr
 }
